@@ -46,7 +46,8 @@ def Key.semitone? (k : Key) : Option Int :=
   | some a, some b => some (a + b)
   | _, _ => none
 
-/-- `op.ParseKey`: first (leftmost) match of `([A-G])([#b]?)(m?)` anywhere in the string -/
+/-- `op.ParseKey`: first (leftmost) match of `([A-G])([#b♯♭]?)(m?)` anywhere in the string (the Unicode signs since
+the D23 fix; `op.NewAccidental` maps them to sharp and flat) -/
 def parseKey (s : List Char) : Option Key :=
   match s.dropWhile (fun c => !("ABCDEFG".toList.contains c)) with
   | [] => none
@@ -56,6 +57,8 @@ def parseKey (s : List Char) : Option Key :=
       match rest with
       | '#' :: r => ("#", r)
       | 'b' :: r => ("b", r)
+      | '♯' :: r => ("♯", r)
+      | '♭' :: r => ("♭", r)
       | r => ("", r)
     let minor := match rest' with | 'm' :: _ => true | _ => false
     some ⟨name, minor, Acc.ofString accS⟩
